@@ -86,6 +86,23 @@ def check_probe(payloads, fmt, ver):
     from .. import rt
     mode = rt._mode(fmt, sum(len(x) for x in payloads))
     case = {'kind': 'probe', 'payloads': payloads, 'fmt': fmt, 'ver': ver}
+    if sum(len(x) for x in payloads) % 3 == 0:
+        # every third probe follows a *refused* dump of a look-alike probe (the same payloads shifted by one position, one
+        # cell of no Haystack kind) that is dropped and collected before the probe proper is built: whatever the writer
+        # kept about the dead objects must not leak into values that now live at their addresses
+        import gc
+        case['after_refused_dump'] = True
+        try:
+            junk = [model.from_model(m) for m in probe(payloads[1:] + payloads[:1], ver)]
+            junk[0].append({list(junk[0].column.keys())[0]: object()})
+            try:
+                hszinc.dump(junk, mode=mode)
+            except Exception:      # noqa - refused, as intended
+                pass
+            del junk
+        except Exception:      # noqa - building the look-alike is not the subject
+            pass
+        gc.collect()
     ms = probe(payloads, ver)
     gs = [model.from_model(m) for m in ms]
     try:
